@@ -329,6 +329,11 @@ register(PropertySpec(
         Rule("INSERT-RETRIEVABLE", cacheidx.rule_insert_retrievable, 2,
              "abstract interpretation of insert(index=True) for an empty and a non-empty assignment: the output is stored "
              "in the index, where retrieve() looks, never only in the flat store"),
+        Rule("CHECK-IS-PURE", cacheidx.rule_check_is_pure, 2,
+             "the coverage checks (SeenSet.check, IndexedCache.check) do not write the coverage state"),
+        Rule("RETRIEVE-ALL-BRANCHES", cacheidx.rule_retrieve_all_branches, 1,
+             "at every level of the retrieval walk the wildcard branch is followed in addition to, never instead of, the "
+             "branches that bind the key"),
         Rule("NONE-TEST", _lazy("extra", "rule_none_tests"), 2,
              "values read from the index with .get() are tested for presence by identity with None, never by truthiness"),
         Rule("LEAF-OVERWRITE", _lazy("extra", "rule_leaf_overwrite"), 1,
@@ -358,6 +363,8 @@ register(PropertySpec(
              "_is_false_ between the cache write and the yield)"),
         Rule("INSERT-RETRIEVABLE", cacheidx.rule_insert_retrievable, 2,
              "(shared with C20) what the operators store is stored where cache hits read"),
+        Rule("CHECK-IS-PURE", cacheidx.rule_check_is_pure, 2,
+             "(shared with C20) asking a result cache whether a binding is covered does not mark it covered"),
         Rule("COVERAGE-AFTER-COMPLETION", history.rule_coverage_after_completion, 6,
              "(shared with C04) coverage recorded before completion is rolled back on every abnormal exit of a public "
              "entry: otherwise an abandoned evaluation makes cached and uncached results differ for ever"),
